@@ -196,7 +196,8 @@ func verifH_ServeStream() {
 	st.receiver = newReceiver[tunnelpb.ClientToServerFrame](func(tunnelpb.ClientToServerFrame) uint { return 1 }, func(uint32) {}, initialWindowSize)
 	reqs := verifChoice("requests", 3)
 	for i := 0; i < reqs; i++ {
-		_ = st.receiver.accept(&tunnelpb.ClientToServer_RequestMessage{RequestMessage: &tunnelpb.MessageData{Size: 1, Data: []byte{byte(i)}}})
+		w := verifWire([]byte{byte(i)})
+		_ = st.receiver.accept(&tunnelpb.ClientToServer_RequestMessage{RequestMessage: &tunnelpb.MessageData{Size: uint32(len(w)), Data: w}})
 	}
 	ending := verifChoice("ending", 3) // 0 half-close, 1 cancel frame, 2 deadline
 	switch ending {
